@@ -20,7 +20,7 @@ STUBS = ["skimage.img_as_float on an array that is already float = identity"]
 OUTSIDE = ["pixel semantics of curvature / colour / illumination / active translation and drift corrections (skimage, scipy map_coordinates, cv2.warpAffine, feature matching)", "dtype equality for neutral corrections (RotationCorrection always returns float64): value equality is asserted"]
 ASSUMPTIONS = ["a correction's correct_array returns a new array (all DarSIA corrections do); in-place array corrections are outside"]
 
-CORRS = ["affine_generic", "crop_generic", "rotation_neutral", "transformation_identity", "drift_inactive", "translation_inactive", "type_float", "illumination_rgb", "illumination_scalar"]
+CORRS = ["affine_generic", "crop_generic", "rotation_neutral", "transformation_identity", "drift_inactive", "translation_inactive", "type_float", "illumination_rgb", "illumination_scalar", "curvature_metadata"]
 
 
 def bounds(tier):
@@ -116,6 +116,16 @@ def make_correction(darsia, name, shape, tag=""):
         return d.TranslationCorrection(), (lambda a: a), {}
     if name == "type_float":
         return d.TypeCorrection(float), (lambda a: a), {}
+    if name == "curvature_metadata":
+        # the real CurvatureCorrection.correct_metadata (crop with width / height) around a pass-through array correction
+        cw, chh = S.real(tag + "cw", lo=1, hi=3), S.real(tag + "ch", lo=1, hi=3)
+
+        class Curv(d.CurvatureCorrection):
+            def correct_array(self, img):
+                return img.copy()
+
+        c = Curv(config={"crop": {"pts_src": [[0, 0], [0, 1], [1, 1], [1, 0]], "width": cw, "height": chh}})
+        return c, (lambda a: a), {"dimensions": [chh, cw], "origin": [0, chh]}
     if name.startswith("illumination"):
         # the real IlluminationCorrection with a given (symbolic) local scaling -- calibration is outside
         ic = d.IlluminationCorrection()
@@ -185,6 +195,13 @@ def body(cfg):
                 S.claim(f"type_correction_promotes_values_overwrite_{ow}", bool(np.allclose(out.img, skimage.img_as_float(raw))))
             if not ow:
                 S.claim("input_series_untouched", bool(np.array_equal(im.img, raw) and im.img.dtype == dt))
+            # a raw array of that dtype: the result (values AND dtype) is the correction of the array, overwrite or not
+            arr = raw[..., 0].copy()
+            ref = corr.correct_array(raw[..., 0].copy())
+            got = corr(arr, overwrite=ow)
+            S.claim(f"array_of_{cfg['dtype']}_gives_the_corrected_array_overwrite_{ow}", bool(isinstance(got, np.ndarray) and got.dtype == ref.dtype and got.shape == ref.shape and np.array_equal(got, ref)))
+            if not ow:
+                S.claim("input_array_untouched", bool(np.array_equal(arr, raw[..., 0]) and arr.dtype == dt))
         return
     if cfg["kind"] == "constructor":
         # corrections passed to the Image constructor are applied in order, in place
@@ -232,8 +249,9 @@ def body(cfg):
     if cfg["corr"] == "crop_generic":
         exp_dims = [dims[0], dims[1] * (shape[1] - 1) / shape[1]]
     else:
-        exp_dims = dims
-    S.claim("result_metadata_is_input_plus_declared_update", S.and_(out.name == exp_name, S.eq(list(out.dimensions), exp_dims), S.eq(list(out.origin), org)))
+        exp_dims = upd["dimensions"] if upd and "dimensions" in upd else dims
+    exp_org = upd["origin"] if upd and "origin" in upd else org
+    S.claim("result_metadata_is_input_plus_declared_update", S.and_(out.name == exp_name, S.eq(list(out.dimensions), exp_dims), S.eq(list(out.origin), exp_org)))
     if ow:
         S.claim("overwrite_returns_the_very_same_object", out is im)
     else:
